@@ -138,6 +138,7 @@ type handler struct {
 
 	sendChan       chan hwebsocket.Msg
 	closing        chan struct{}
+	done           chan struct{}
 	sender         hwebsocket.Sender
 	dispatcher     hwebsocket.Dispatcher
 	consumer       hwebsocket.Consumer
@@ -162,6 +163,8 @@ func (h *handler) Handle(ctx context.Context) {
 
 	h.sendChan = make(chan hwebsocket.Msg, sendChanSize)
 	h.closing = make(chan struct{})
+	h.done = make(chan struct{})
+	defer close(h.done)
 	h.sender = h.Handler.Sender()
 
 	wg.Add(1)
@@ -383,6 +386,12 @@ func (h *handler) disconnect(err error) {
 func (h *handler) handleDisconnect(err error) {
 	close(h.closing)
 
+	// The messages of the client are not consumed anymore. Whoever is blocked
+	// queueing one because the queue is full - the receiving goroutine, or the
+	// frame of a session delivering a pending update - would stay blocked for
+	// ever, and Handle would never return: the queue is drained until then.
+	go h.drainMessages()
+
 	// Closing the WebSocket connection sends a close frame, which requires
 	// the write lock: when the client does not read what it is sent, that
 	// lock is held by a write that never completes. Make pending and further
@@ -390,6 +399,21 @@ func (h *handler) handleDisconnect(err error) {
 	h.Conn.SetWriteDeadline(time.Now())
 	h.Conn.Close()
 	h.Handler.HandleDisconnect(err)
+}
+
+func (h *handler) drainMessages() {
+	messages := h.consumer.Messages()
+	for {
+		select {
+		case _, ok := <-messages:
+			if !ok {
+				return
+			}
+
+		case <-h.done:
+			return
+		}
+	}
 }
 
 type responseSender struct {
